@@ -47,25 +47,25 @@ impl Check for Reuse {
 }
 
 fn c01_exact() -> c01::C01 {
-    c01::C01 { family: "c01_net_exact_timers", skew: false, noisy: false, quick_runs: 3000, thorough_runs: 60000 }
+    c01::C01 { family: "c01_net_exact_timers", skew: false, noisy: false, quick_runs: 12_000, thorough_runs: 200_000 }
 }
 fn c01_noisy() -> c01::C01 {
-    c01::C01 { family: "c01_net_noisy_prelude", skew: true, noisy: true, quick_runs: 1000, thorough_runs: 40000 }
+    c01::C01 { family: "c01_net_noisy_prelude", skew: true, noisy: true, quick_runs: 4000, thorough_runs: 100_000 }
 }
 fn c02_free() -> c02::C02 {
-    c02::C02 { family: "c02_closed_loop_fault_free", faults: false, quick_runs: 3000, thorough_runs: 100_000 }
+    c02::C02 { family: "c02_closed_loop_fault_free", faults: false, quick_runs: 8000, thorough_runs: 200_000 }
 }
 fn c02_faults() -> c02::C02 {
-    c02::C02 { family: "c02_closed_loop_faults_then_quiet", faults: true, quick_runs: 1000, thorough_runs: 50_000 }
+    c02::C02 { family: "c02_closed_loop_faults_then_quiet", faults: true, quick_runs: 3000, thorough_runs: 100_000 }
 }
 
 pub fn all() -> Vec<Box<dyn Check>> {
     let mut v: Vec<Box<dyn Check>> = Vec::new();
-    v.push(Box::new(c01::C01 { family: "c01_net_exact_timers", skew: false, noisy: false, quick_runs: 3000, thorough_runs: 60000 }));
-    v.push(Box::new(c01::C01 { family: "c01_net_skewed_timers", skew: true, noisy: false, quick_runs: 2000, thorough_runs: 40000 }));
-    v.push(Box::new(c01::C01 { family: "c01_net_noisy_prelude", skew: true, noisy: true, quick_runs: 1000, thorough_runs: 40000 }));
-    v.push(Box::new(c02::C02 { family: "c02_closed_loop_fault_free", faults: false, quick_runs: 3000, thorough_runs: 100_000 }));
-    v.push(Box::new(c02::C02 { family: "c02_closed_loop_faults_then_quiet", faults: true, quick_runs: 1000, thorough_runs: 50_000 }));
+    v.push(Box::new(c01::C01 { family: "c01_net_exact_timers", skew: false, noisy: false, quick_runs: 12_000, thorough_runs: 200_000 }));
+    v.push(Box::new(c01::C01 { family: "c01_net_skewed_timers", skew: true, noisy: false, quick_runs: 8000, thorough_runs: 150_000 }));
+    v.push(Box::new(c01::C01 { family: "c01_net_noisy_prelude", skew: true, noisy: true, quick_runs: 4000, thorough_runs: 100_000 }));
+    v.push(Box::new(c02::C02 { family: "c02_closed_loop_fault_free", faults: false, quick_runs: 8000, thorough_runs: 200_000 }));
+    v.push(Box::new(c02::C02 { family: "c02_closed_loop_faults_then_quiet", faults: true, quick_runs: 3000, thorough_runs: 100_000 }));
     v.push(Box::new(c03::C03));
     v.push(Box::new(c05::C05));
     v.push(Box::new(c06::C06));
@@ -79,18 +79,18 @@ pub fn all() -> Vec<Box<dyn Check>> {
     v.push(Box::new(c14::C14));
     v.push(Box::new(c15::C15));
     v.push(Box::new(c18::C18));
-    v.push(Box::new(Reuse { property: "C14", family: "c14_monitor_on_random_history", inner: Box::new(c08::C08Driver), quick_runs: 3000, thorough_runs: 60_000 }));
-    v.push(Box::new(Reuse { property: "C13", family: "c13_monitor_on_closed_loop_faults", inner: Box::new(c02_faults()), quick_runs: 800, thorough_runs: 30_000 }));
-    v.push(Box::new(Reuse { property: "C13", family: "c13_monitor_on_random_history", inner: Box::new(c08::C08Driver), quick_runs: 3000, thorough_runs: 60_000 }));
-    v.push(Box::new(Reuse { property: "C13", family: "c13_monitor_on_noisy_networks", inner: Box::new(c01_noisy()), quick_runs: 600, thorough_runs: 20_000 }));
-    v.push(Box::new(Reuse { property: "C08", family: "c08_monitor_on_networks", inner: Box::new(c01_noisy()), quick_runs: 800, thorough_runs: 30_000 }));
-    v.push(Box::new(Reuse { property: "C08", family: "c08_monitor_on_faithful_history", inner: Box::new(c12::C12), quick_runs: 2000, thorough_runs: 40_000 }));
-    v.push(Box::new(Reuse { property: "C12", family: "c12_timer_cover_on_networks", inner: Box::new(C12Net(c01_exact())), quick_runs: 1000, thorough_runs: 30_000 }));
+    v.push(Box::new(Reuse { property: "C14", family: "c14_monitor_on_random_history", inner: Box::new(c08::C08Driver), quick_runs: 12000, thorough_runs: 180000 }));
+    v.push(Box::new(Reuse { property: "C13", family: "c13_monitor_on_closed_loop_faults", inner: Box::new(c02_faults()), quick_runs: 3200, thorough_runs: 90000 }));
+    v.push(Box::new(Reuse { property: "C13", family: "c13_monitor_on_random_history", inner: Box::new(c08::C08Driver), quick_runs: 12000, thorough_runs: 180000 }));
+    v.push(Box::new(Reuse { property: "C13", family: "c13_monitor_on_noisy_networks", inner: Box::new(c01_noisy()), quick_runs: 2400, thorough_runs: 60000 }));
+    v.push(Box::new(Reuse { property: "C08", family: "c08_monitor_on_networks", inner: Box::new(c01_noisy()), quick_runs: 3200, thorough_runs: 90000 }));
+    v.push(Box::new(Reuse { property: "C08", family: "c08_monitor_on_faithful_history", inner: Box::new(c12::C12), quick_runs: 8000, thorough_runs: 120000 }));
+    v.push(Box::new(Reuse { property: "C12", family: "c12_timer_cover_on_networks", inner: Box::new(C12Net(c01_exact())), quick_runs: 4000, thorough_runs: 90000 }));
     // C17 part 1: the nesting-detecting lock runs in every scenario; these families report it
-    v.push(Box::new(Reuse { property: "C17", family: "c17_lock_depth_on_random_history", inner: Box::new(c08::C08Driver), quick_runs: 4000, thorough_runs: 100_000 }));
-    v.push(Box::new(Reuse { property: "C17", family: "c17_lock_depth_on_networks", inner: Box::new(c01_noisy()), quick_runs: 600, thorough_runs: 20_000 }));
-    v.push(Box::new(Reuse { property: "C17", family: "c17_lock_depth_on_boundary_clock_tlvs", inner: Box::new(c15::C15), quick_runs: 2000, thorough_runs: 50_000 }));
-    v.push(Box::new(Reuse { property: "C17", family: "c17_lock_depth_on_chaos_host", inner: Box::new(c03::C03), quick_runs: 3000, thorough_runs: 60_000 }));
+    v.push(Box::new(Reuse { property: "C17", family: "c17_lock_depth_on_random_history", inner: Box::new(c08::C08Driver), quick_runs: 16000, thorough_runs: 300000 }));
+    v.push(Box::new(Reuse { property: "C17", family: "c17_lock_depth_on_networks", inner: Box::new(c01_noisy()), quick_runs: 2400, thorough_runs: 60000 }));
+    v.push(Box::new(Reuse { property: "C17", family: "c17_lock_depth_on_boundary_clock_tlvs", inner: Box::new(c15::C15), quick_runs: 8000, thorough_runs: 150000 }));
+    v.push(Box::new(Reuse { property: "C17", family: "c17_lock_depth_on_chaos_host", inner: Box::new(c03::C03), quick_runs: 12000, thorough_runs: 180000 }));
     let _ = c02_free;
     v
 }
